@@ -4,6 +4,7 @@ import (
 	"bytes"
 	"encoding/json"
 	"fmt"
+	"github.com/tobgu/qframe/config/groupby"
 	"math"
 	"strings"
 	"testing"
@@ -162,6 +163,18 @@ func propC14(t *rapid.T) {
 				t.Fatalf("ToUpper before writing: %v\n%s", d.QF.Err, d.String())
 			}
 			d.Route = append(d.Route, "ToUpper on every string/enum column")
+		}
+		if !upper && len(base.Cols) >= 2 && rapid.IntRange(0, 5).Draw(t, "aggregatefirst") == 0 {
+			// the frame written is an Aggregate result whose aggregate columns were given new names (As)
+			key := base.Cols[0].Name
+			var aggs []qframe.Aggregation
+			for i, c := range base.Cols[1:] {
+				aggs = append(aggs, qframe.Aggregation{Fn: "count", Column: c.Name, As: fmt.Sprintf("n of %s #%d", c.Name, i)})
+			}
+			if a := d.QF.GroupBy(groupby.Columns(key), groupby.Null(true)).Aggregate(aggs...); a.Err == nil {
+				d.QF = a
+				d.Route = append(d.Route, "GroupBy(first column).Aggregate(counts under new names)")
+			}
 		}
 		in := d.Input(t)
 		if upper {
